@@ -40,5 +40,10 @@ def check(model, tier):
     triviality.r05_2_noop_predicates_agree(ctx, rule="R02.6")
     structure.r06_1_flags(ctx, rule="R02.7")
     mutation.r09_4_no_shared_mutation(ctx)
+    from ..rules import purity
+    from .common import SQL_ENGINE as _SQL
+
+    purity.r_engine_stateless(ctx, "R02.8", _SQL, ("to_executable", "to_payload", "conform", "append_unary", "append_binary"))
+    sqlplace.r_sort_mapping(ctx, "R02.9")
     run.assume("within one SELECT the clauses act in the order WHERE -> ORDER BY -> select list -> DISTINCT -> OFFSET/LIMIT")
     return run
